@@ -423,8 +423,12 @@ inline void initStripeState(
       stripeEnd = end;
     } else {
       Wide perStripe = totalRange / static_cast<Wide>(numWorkers);
-      Wide endWide = static_cast<Wide>(start) + static_cast<Wide>(i + 1) * perStripe;
-      stripeEnd = alignDownStripe(static_cast<IntegerT>(endWide), state.granularity);
+      // Align the stripe length (offset from start) down to a multiple of granularity, so that
+      // every stripe length -- and hence every stripe's last claim -- is a multiple of granularity
+      // for any start (the granularity contract is relative to start, not to absolute indices).
+      Wide off = static_cast<Wide>(i + 1) * perStripe;
+      off -= off % static_cast<Wide>(state.granularity);
+      stripeEnd = static_cast<IntegerT>(static_cast<Wide>(start) + off);
       if (stripeEnd <= cursor) {
         stripeEnd = cursor;
       }
